@@ -87,8 +87,18 @@ func (m *MW) StepForge(forceMut, forceVia int) {
 			pj["amount"] = uint64(4)
 		}
 		desc = "amount/2"
-	case 2: // amount that is not a key
-		pj["amount"] = p.Amount + 3
+	case 2: // amount that is not a key of the keyset (no power of two), in several relations to the signed amount
+		a := p.Amount
+		cand := []uint64{a * 3, a + 3, a * 5, a * 7, a + 1<<50, a*2 + a/2 + 1, a | 1<<61}
+		ci := m.T.Choose("forge.nondenom", len(cand))
+		if forceMut >= 0 {
+			ci = (m.step/2 + via) % len(cand) // core scenarios walk through the candidates
+		}
+		v := cand[ci]
+		if v&(v-1) == 0 { // happens to be a power of two (or 0)
+			v = a * 3
+		}
+		pj["amount"] = v
 		desc = "amount non-denomination"
 	case 3: // id to another known keyset
 		desc = "id other keyset"
